@@ -433,10 +433,22 @@ class Exec:
                 return FuncV(lambda ex, s, args, kw, nd, _m=npmodel.ARRAY_METHODS[attr], _v=v: _m(ex, s, [_v] + list(args), kw, nd),
                              f"ndarray.{attr}")
             raise Undecided(f"ndarray.{attr}")
+        from . import objects
+        if isinstance(v, objects.SObj):
+            return objects.sobj_getattr(self, st, v, attr, node)
+        if isinstance(v, objects.SLRef):
+            if attr == "append":
+                return FuncV(lambda ex, s, args, kw, nd, _v=v: (objects.symlist_append(ex, s, _v, args[0], nd), NONE)[1], "list.append")
+            if attr == "extend":
+                return FuncV(lambda ex, s, args, kw, nd, _v=v: (objects.symlist_extend(ex, s, _v, args[0], nd), NONE)[1], "list.extend")
+            raise Undecided(f"list.{attr} on a symbolic list")
         if isinstance(v, ORef):
             o = st.heap[v.oid]
             if attr in o.fields:
                 return o.fields[attr]
+            der = objects.SCHEMA.get(o.cls, {}).get(attr)
+            if isinstance(der, tuple) and der[0] == "derived" and attr in objects.OREF_DERIVED.get(o.cls, {}):
+                return objects.OREF_DERIVED[o.cls][attr](self, st, o)
             # properties / methods of classes under contract
             key = f"{o.cls}.{attr}"
             if key in self.registry:
@@ -529,6 +541,10 @@ class Exec:
         a, b = lit(a), lit(b)
         if isinstance(op, ast.Add):
             a, b = coerce(a, b)
+            if z3.is_real(a) and getattr(self.k, "float_model", False) and not self.spec_mode:
+                d = self.fresh("fl_delta", R)
+                st.pc.append(z3.And(d >= -z3.Q(1, 2 ** 53), d <= z3.Q(1, 2 ** 53)))
+                return (a + b) * (1 + d)
             return a + b
         if isinstance(op, ast.Sub):
             a, b = coerce(a, b)
@@ -538,7 +554,14 @@ class Exec:
             return a * b
         if isinstance(op, ast.Div):
             self.safe(st, "div-nonzero", real(b) != 0, node)
-            return real(a) / real(b)
+            q = real(a) / real(b)
+            if getattr(self.k, "float_model", False) and not self.spec_mode and not (z3.is_int(a) and z3.is_int(b)):
+                # (the quotient of two integers below 2**53 is correctly rounded and its floor is exact, so int/int stays exact)
+                # standard model of IEEE-754 double division: fl(a/b) = (a/b)(1+d), |d| <= 2**-53  (DESIGN 4.4)
+                d = self.fresh("fl_delta", R)
+                st.pc.append(z3.And(d >= -z3.Q(1, 2 ** 53), d <= z3.Q(1, 2 ** 53)))
+                q = q * (1 + d)
+            return q
         if isinstance(op, ast.FloorDiv):
             if z3.is_int(a) and z3.is_int(b):
                 self.safe(st, "floordiv-positive-divisor", b > 0, node)
@@ -623,6 +646,9 @@ class Exec:
             return z3.BoolVal(a.sid == b.sid)
         if isinstance(a, ORef) and isinstance(b, ORef):
             return z3.BoolVal(a.oid == b.oid)
+        from . import objects
+        if isinstance(a, objects.SObj) and isinstance(b, objects.SObj):
+            return a.id == b.id
         raise Undecided("'is' between these values")
 
     def struct_eq(self, a, b):
@@ -685,6 +711,13 @@ class Exec:
                 self.safe(st, "list-index", z3.BoolVal(-len(items) <= k < len(items)), e)
                 return items[k]
             raise Undecided("symbolic index into concrete list")
+        from . import objects
+        if isinstance(v, objects.SLRef):
+            if isinstance(sl, ast.Slice):
+                raise Undecided("slice of symbolic list")
+            d = st.heap[v.sid]
+            i = self.norm_index(self.ev(sl, st), d.length)
+            return objects.symlist_get(self, st, v, i, e)
         if isinstance(v, SeqV):
             if isinstance(sl, ast.Slice):
                 raise Undecided("slice of symbolic sequence")
@@ -985,6 +1018,12 @@ class Exec:
 
     def assign(self, tgt, val, st, node):
         if isinstance(tgt, ast.Name):
+            sl = getattr(self.k, "sym_lists", {}) if self.k is not None else {}
+            if tgt.id in sl and isinstance(val, LRef) and not st.heap[val.sid].items:
+                from . import objects
+                cls = sl[tgt.id]
+                val = objects.new_symlist(self, st, cls if cls not in ("real", "int", "bool") else None, name=tgt.id,
+                                          elem_sort={"real": R, "int": I, "bool": B}.get(cls))
             st.env[tgt.id] = val
             return
         if isinstance(tgt, (ast.Tuple, ast.List)):
@@ -1264,6 +1303,15 @@ class Exec:
             if nm not in st.env:
                 continue
             v = st.env[nm]
+            from . import objects
+            if isinstance(v, objects.SLRef):
+                objects.symlist_havoc(self, st, v, nm)
+                continue
+            if isinstance(v, objects.SObj):
+                if nm in names and nm not in stores:
+                    st.env[nm] = objects.SObj(v.cls, self.fresh(nm, I), v.owner)
+                    continue
+                raise Undecided(f"symbolic object {nm} written in a loop")
             if isinstance(v, LRef):
                 hook = getattr(self.k, "list_havoc", {}).get(nm)
                 if hook is None:
@@ -1294,6 +1342,9 @@ class Exec:
                 return d.shape[0], (lambda s, k: self.alloc_arr(s, (d.shape[1],), self.lam1(lambda c: self.sel2(d, k, c)), d.elem, d.owner, view_of=v.sid)), None
             if isinstance(v, SeqV):
                 return v.length, (lambda s, k: v.getter(self, s, k)), None
+            from . import objects
+            if isinstance(v, objects.SLRef):
+                return st.heap[v.sid].length, (lambda s, k, _v=v: objects.symlist_get(self, s, _v, k)), None
             if isinstance(v, LRef):
                 items = list(st.heap[v.sid].items)
                 return z3.IntVal(len(items)), None, items
